@@ -737,6 +737,8 @@ func racePass() {
 			}
 		}
 		rep.Fail(engine.Failure{Class: "race-pass/data-race/" + frame, Detail: "the race detector reported a data race in the free-running pass: " + r.Stderr, Case: map[string]any{"kind": "race-pass", "log": r.Stderr}}, 0)
+	case r.Exit == 4:
+		rep.Fail(engine.Failure{Class: "race-pass/hang", Detail: "a free-running scenario iteration did not finish within 60 s (threads blocked for good): " + r.Stdout, Case: map[string]any{"kind": "race-pass", "log": r.Stdout}}, 0)
 	case r.Exit == 3:
 		rep.Fail(engine.Failure{Class: "race-pass/oracle-failure", Detail: r.Stdout, Case: map[string]any{"kind": "race-pass", "log": r.Stdout}}, 0)
 	case r.Exit != 0:
